@@ -26,6 +26,8 @@ type Engine struct {
 	inst        map[string][]*ssa.Function // generic contract key -> instantiations used by the program
 	effMemo     map[*ssa.Function]*effectSet
 	effDone     map[*ssa.Function]bool
+	retGlobal   map[*ssa.Function]string            // functions that return an object read from a package-level variable
+	viaExternal map[ssa.Instruction]string          // calls of contract-less dependency functions that are handed pre-existing memory
 	viaGlobal   map[ssa.Instruction]string          // write sites that go through a value read from a package-level variable
 	effSites    map[*ssa.Function][]ssa.Instruction // write sites to pre-existing memory, per function
 	renames     map[string]map[string]string // function -> local name in the contract -> its new name (pure renamings)
